@@ -119,6 +119,14 @@ def build_harness():
         return _built["harness"]
     hdir = os.path.join(VERIF, "harness")
     tgt = os.path.join(BUILD, "b3")
+    if os.path.realpath(REPO) != "/repo":
+        # scratch copy of the repository (tools/mutant_matrix.py): the crate's path dependency has to follow it
+        src = hdir
+        hdir = os.path.join(BUILD, "harness-src")
+        shutil.rmtree(hdir, ignore_errors=True)
+        shutil.copytree(src, hdir, ignore=shutil.ignore_patterns("target", "Cargo.lock"))
+        ct = open(os.path.join(hdir, "Cargo.toml")).read().replace('path = "/repo"', 'path = "%s"' % REPO)
+        open(os.path.join(hdir, "Cargo.toml"), "w").write(ct)
     lock_src = os.path.join(REPO, "Cargo.lock")
     lock_dst = os.path.join(hdir, "Cargo.lock")
     with _Lock("b3"):
